@@ -33,6 +33,8 @@ def alphabet():
         for ln in ('5', '9', '-'):
             for dt in ('-', 'short', 'long'):
                 ops.append('mk.dom\t0\t%s\t%s\t-\t%s' % (name, ln, dt))
+    # the complement of the NEXT automatic name (prefix d, ID 1) declared explicitly, with either length
+    ops += ['mk.dom\t0\td1*\t5\t-\t-', 'mk.dom\t0\td1*\t9\t-\t-', 'mk.dom\t0\td1\t-\t-\tlong']
     ops += ['inv\th0', 'inv\th1', 'drop\th0', 'drop\th1']
     return ops
 
@@ -125,7 +127,7 @@ def run(res, proof):
         run_one(cfg, combo)
     iw.reset()
     res.dist['histories'] = n_hist
-    res.rule = ('exhaustive histories of depth <= %d over 31 ops (names a / a* / automatic x lengths 5 / 9 / none x dtype none / short / '
+    res.rule = ('exhaustive histories of depth <= %d over 34 ops (names a / a* / automatic x lengths 5 / 9 / none x dtype none / short / '
                 'long, complement of the first two handles, drops) x 3 class-setting variants, plus seeded random histories of length '
                 '3-6; after every successful request the complement is taken and dropped again; non-trivial = at least one refused '
                 'request; distinct by (settings, op sequence)' % depth)
